@@ -72,6 +72,10 @@ impl Stats {
         let k = format!("violations.{class}");
         self.inc(&k);
         if self.get(&k) <= 3 && self.violations.len() < MAX_VIOLATIONS {
+            let mut v = v;
+            if let Some(o) = v.as_object_mut() {
+                o.insert("_class".into(), Value::String(class.to_string()));
+            }
             self.violations.push(v);
         }
     }
@@ -103,7 +107,13 @@ impl Stats {
             }
         }
         for v in o.violations {
-            if self.violations.len() < MAX_VIOLATIONS {
+            // keep at most 3 written-out cases per violation class over all shards
+            let class = v.get("_class").and_then(|c| c.as_str()).map(|s| s.to_string());
+            let same = match &class {
+                Some(c) => self.violations.iter().filter(|x| x.get("_class").and_then(|y| y.as_str()) == Some(c)).count(),
+                None => 0,
+            };
+            if same < 3 && self.violations.len() < MAX_VIOLATIONS {
                 self.violations.push(v);
             }
         }
